@@ -93,7 +93,7 @@ Proof.
   destruct (c09_Forall2_in_r _ _ _ _ F Hm) as (f' & Hf' & s1 & s2 & Em). apply in_map_iff in Hf' as (f & <- & Hf).
   destruct (Hmk f Hf) as (Htp & Hpos & Hty & Hown). cbn [ts_obs_member mb_type] in Hr. rewrite <- Hpos in Hr.
   eapply ts_refs; [exact Htp| |exact Hown|exact Hr].
-  unfold c09_recon_type. rewrite Hpos, Hty. exact (ts_member_names cfg gs _ _ _ _ Em).
+  unfold c09_recon_type. rewrite Hty. exact (ts_member_names cfg gs _ _ _ _ Em).
 Qed.
 
 Lemma ts_defname_ren en : c09_def_which TypeScript (c9e_kind en) = C9Ren -> c9e_suffix en = [] -> defname en = renamed (c9e_id en).
@@ -165,7 +165,7 @@ Proof.
       assert (eid (enum_shared e0) = eid (enum_shared e)) as <-.
       { apply (f_equal (fun x => eid (enum_shared x))) in Ee. destruct e, e0; cbn in Ee |- *; congruence. }
       symmetry. apply ts_defname_ren; destruct e0; reflexivity.
-  - (* const: not a definition; its type is not reconciled *)
+  - (* const: not a definition; its type is reconciled like every other type position *)
     c09_bind Hd ty s3 E. c09_ret Hd. split; [|exact I].
     intros d [<-|[]]. split; [cbn; discriminate|].
     intros r Hr. unfold c09_decl_refs in Hr. cbn [ts_obs d_kind d_name d_type] in Hr.
